@@ -28,6 +28,10 @@ enum Op {
     /// rewrite the location to a string that differs from the current one but names the same
     /// path (doubled separator, "/./", trailing "/", leading "./")
     SetEquivalent { pack: usize, how: u8 },
+    /// environment fault: from here on the process may not write the file beyond `bytes`
+    /// (RLIMIT_FSIZE with SIGXFSZ ignored: the write is refused with EFBIG, possibly after a part
+    /// of it went through); 0 lifts the limit
+    FileSizeLimit { bytes: u64 },
 }
 
 fn containers(seed: u64, tier: Tier) -> Vec<(String, Logical)> {
@@ -106,6 +110,10 @@ fn containers(seed: u64, tier: Tier) -> Vec<(String, Logical)> {
         l.opts.shuffle_manifest = shuffle;
         out.push((n, l));
     }
+    // manifests "another writer" produced: the reserved byte of every pack description is not
+    // zero (the image is patched and re-signed after creation, see load_image)
+    out.push(mk("c12-loose-p3-foreign-writer".into(), Packaging::Loose, 3, Comp::None, &mut k));
+    out.push(mk("c12-concat-p2-foreign-writer".into(), Packaging::Concat, 2, Comp::Zstd(3), &mut k));
     out
 }
 
@@ -163,16 +171,23 @@ fn gen_location(rng: &mut Rng) -> String {
     s
 }
 
-fn gen_history(rng: &mut Rng, n_listed: usize, tier: Tier, boundary: &[usize]) -> Vec<Op> {
+fn gen_history(rng: &mut Rng, n_listed: usize, tier: Tier, boundary: &[usize], file_len: u64) -> Vec<Op> {
     let len = rng.range(1, if tier == Tier::Quick { 10 } else { 16 }) as usize;
     let mut ops = vec![];
+    // one history in five runs into a file size limit somewhere
+    let limit_at = if rng.chance(1, 5) { Some(rng.usize_below(len)) } else { None };
     // bias towards the same pack rewritten several times (long then short), and the last slot
     let mut hot = if rng.chance(1, 3) { n_listed - 1 } else { rng.usize_below(n_listed) };
     if !boundary.is_empty() && rng.chance(1, 2) {
         // a pack whose description straddles a 64 KiB boundary of the manifest
         hot = *rng.pick(boundary);
     }
-    for _ in 0..len {
+    for i in 0..len {
+        if limit_at == Some(i) {
+            ops.push(Op::FileSizeLimit {
+                bytes: rng.below(file_len + 300),
+            });
+        }
         match rng.below(10) {
             0 => ops.push(Op::SetUnknown {
                 uuid_seed: rng.next_u64(),
@@ -273,6 +288,27 @@ struct Image {
     one_file: bool,
 }
 
+/// how often the file size limit made a rewrite fail (evidence: faults that actually fired)
+static REFUSED: std::sync::atomic::AtomicU64 = std::sync::atomic::AtomicU64::new(0);
+
+/// Run `f` while the process may not grow or write any file beyond `limit` bytes (soft
+/// RLIMIT_FSIZE; SIGXFSZ is ignored process-wide by the worker, so the write fails with EFBIG).
+fn with_file_size_limit<T>(limit: Option<u64>, f: impl FnOnce() -> T) -> T {
+    let Some(l) = limit else { return f() };
+    unsafe {
+        let mut old: libc::rlimit = std::mem::zeroed();
+        libc::getrlimit(libc::RLIMIT_FSIZE, &mut old);
+        let new = libc::rlimit {
+            rlim_cur: l,
+            rlim_max: old.rlim_max,
+        };
+        libc::setrlimit(libc::RLIMIT_FSIZE, &new);
+        let r = f();
+        libc::setrlimit(libc::RLIMIT_FSIZE, &old);
+        r
+    }
+}
+
 /// Where each pack description (in the reader's order: directory pack first, then the content
 /// packs as `get_pack_infos` lists them) sits on disk: index into the scanner's slot list.
 fn slots_of(bytes: &[u8], mspan: &layout::PackSpan, model: &[SlotInfo]) -> Vec<usize> {
@@ -365,13 +401,19 @@ fn run_history(dir: &Path, img: &Image, ops: &[Op]) -> (Vec<String>, usize) {
         }
     }
     // a history always ends by restoring everything, so that the full container can be compared
+    flat.push(Op::FileSizeLimit { bytes: 0 });
     for (i, loc) in original.iter().enumerate() {
         flat.push(Op::Set {
             pack: i,
             loc: loc.clone(),
         });
     }
+    let mut limit: Option<u64> = None;
     for (si, op) in flat.iter().enumerate() {
+        if let Op::FileSizeLimit { bytes } = op {
+            limit = if *bytes == 0 { None } else { Some(*bytes) };
+            continue;
+        }
         steps += 1;
         let (uuid, loc, target) = match op {
             Op::Set { pack, loc } => (model[*pack].uuid, loc.clone(), Some(*pack)),
@@ -380,7 +422,7 @@ fn run_history(dir: &Path, img: &Image, ops: &[Op]) -> (Vec<String>, usize) {
                 Rng::derive(*uuid_seed, "c12-unknown-uuid", 0).fill(&mut b);
                 (uuid::Uuid::from_bytes(b), loc.clone(), None)
             }
-            Op::RestoreAll => unreachable!(),
+            Op::RestoreAll | Op::FileSizeLimit { .. } => unreachable!(),
             Op::SetEquivalent { pack, how } => {
                 let cur = model[*pack].location.clone();
                 let new = match how {
@@ -400,8 +442,14 @@ fn run_history(dir: &Path, img: &Image, ops: &[Op]) -> (Vec<String>, usize) {
                 (model[*pack].uuid, new, Some(*pack))
             }
         };
-        let res = jubako::tools::set_location(&entry, uuid, loc.as_str().into());
-        let step = format!("step {si} ({})", match target {
+        let res = with_file_size_limit(limit, || jubako::tools::set_location(&entry, uuid, loc.as_str().into()));
+        if limit.is_some() && res.is_err() {
+            REFUSED.fetch_add(1, std::sync::atomic::Ordering::Relaxed);
+            // the write was refused by the environment and the library said so: nothing is
+            // claimed about a rewrite that reported failure; the history ends here
+            return (bad, steps);
+        }
+        let step = format!("step {si} ({}{})", if limit.is_some() { "file size limited, " } else { "" }, match target {
             Some(p) => format!("set slot {p} to {} bytes", loc.len()),
             None => "unknown uuid".to_string(),
         });
@@ -545,6 +593,7 @@ fn ops_json(ops: &[Op]) -> Value {
             Op::SetUnknown { uuid_seed, loc } => json!({"unknown": uuid_seed, "loc": loc}),
             Op::RestoreAll => json!("restore-all"),
             Op::SetEquivalent { pack, how } => json!({"equivalent": pack, "how": how}),
+            Op::FileSizeLimit { bytes } => json!({"file-size-limit": bytes}),
         })
         .collect::<Vec<_>>())
 }
@@ -556,6 +605,10 @@ fn ops_from_json(v: &Value) -> Vec<Op> {
         .map(|o| {
             if o == "restore-all" {
                 Op::RestoreAll
+            } else if let Some(b) = o.get("file-size-limit") {
+                Op::FileSizeLimit {
+                    bytes: b.as_u64().unwrap(),
+                }
             } else if let Some(p) = o.get("equivalent") {
                 Op::SetEquivalent {
                     pack: p.as_u64().unwrap() as usize,
@@ -583,6 +636,31 @@ fn load_image(hooks: &FHooks, seed: u64, name: &str, logical: &Logical, dir: &Pa
     let mism = dump::check_against_model(&pristine, &built.model, crate::contents_readable(logical.packaging));
     if !mism.is_empty() {
         simcore::harness_error(&format!("C12 image {name}: {}", mism[0]));
+    }
+    let mut pristine = pristine;
+    if name.contains("foreign-writer") {
+        let entry = &built.files[0];
+        let mut bytes = std::fs::read(entry).unwrap();
+        let spans = layout::scan_file(&bytes);
+        let mspan = spans
+            .iter()
+            .find(|s| s.kind == b'm')
+            .unwrap_or_else(|| simcore::harness_error("C12: no manifest to patch"))
+            .clone();
+        simcore::fault::foreign_writer_manifest(&mut bytes, &mspan);
+        std::fs::write(entry, &bytes).unwrap();
+        // the patched manifest must be a valid one for the library under test
+        match read_manifest(entry) {
+            Ok((infos, true, cc)) if cc != Some(false) && infos.iter().all(|i| !i.rest.contains("group=0 ")) => {}
+            other => simcore::harness_error(&format!(
+                "C12: the re-signed foreign-writer manifest of {name} is not accepted by the library: {:?}",
+                other.map(|(i, c, cc)| (i.len(), c, cc))
+            )),
+        }
+        pristine = dump::dump_container(entry, &DumpSpec::for_model(&built.model));
+        if pristine.get("check") != Some(&Leaf::Val("true".into())) {
+            simcore::harness_error(&format!("C12: container of {name} does not verify after re-signing"));
+        }
     }
     Image {
         name: name.to_string(),
@@ -631,6 +709,9 @@ fn classify(msg: &str) -> String {
 
 pub fn worker_main(args: &Args, w: usize, n: usize) -> ! {
     let hooks = FHooks::install();
+    unsafe {
+        libc::signal(libc::SIGXFSZ, libc::SIG_IGN);
+    }
     let scratch = simcore::Scratch::new(&format!("C12-w{w}"));
     let only = std::env::var("VERIF_ONLY_IMAGE").ok();
     for (ii, (name, logical)) in containers(args.seed, args.tier).into_iter().enumerate() {
@@ -658,8 +739,10 @@ pub fn worker_main(args: &Args, w: usize, n: usize) -> ! {
             // every other history runs with seeded short reads on jubako's reader-side streams
             hooks.set_short_reads(if h % 2 == 1 { 300 } else { 0 }, h);
             let mut rng = Rng::derive(args.seed, &format!("c12-history-{name}"), h);
-            let ops = gen_history(&mut rng, n_listed, args.tier, &boundary);
+            let ops = gen_history(&mut rng, n_listed, args.tier, &boundary, img.files[0].1.len() as u64);
+            REFUSED.store(0, std::sync::atomic::Ordering::Relaxed);
             let r = std::panic::catch_unwind(std::panic::AssertUnwindSafe(|| run_history(&case_dir, &img, &ops)));
+            let refused = REFUSED.load(std::sync::atomic::Ordering::Relaxed);
             let (bad, steps) = match r {
                 Ok(x) => x,
                 Err(_) => {
@@ -683,7 +766,8 @@ pub fn worker_main(args: &Args, w: usize, n: usize) -> ! {
             println!(
                 "{}",
                 json!({"t":"case","ii":ii,"image":img.name,"h":h,"ops":ops_json(&ops),"steps":steps,"bad":bad,
-                       "minimised": min_ops,
+                       "minimised": min_ops, "write_refused_by_file_size_limit": refused,
+                       "file_size_limited": ops.iter().any(|o| matches!(o, Op::FileSizeLimit { .. })),
                        "max_loc": ops.iter().map(|o| match o { Op::Set{loc,..} | Op::SetUnknown{loc,..} => loc.len(), _ => 0}).max().unwrap_or(0)})
             );
         }
@@ -738,6 +822,13 @@ pub fn parent_main(args: &Args) -> ! {
         total_steps += r["steps"].as_u64().unwrap_or(0);
         if r["max_loc"].as_u64().unwrap_or(0) >= 212 {
             boundary += 1;
+        }
+        let refused = r["write_refused_by_file_size_limit"].as_u64().unwrap_or(0);
+        if refused > 0 {
+            ev.fired("write-refused-by-file-size-limit (EFBIG)", refused);
+        }
+        if r["file_size_limited"] == true {
+            ev.fired("history-under-a-file-size-limit", 1);
         }
         ev.distinct
             .insert(simcore::prng::hash_label(0, &format!("{}|{}", r["image"], r["ops"]), 0));
@@ -804,6 +895,9 @@ pub fn parent_main(args: &Args) -> ! {
 }
 
 pub fn replay_main(_args: &Args, file: &str) -> ! {
+    unsafe {
+        libc::signal(libc::SIGXFSZ, libc::SIG_IGN);
+    }
     let v: Value = serde_json::from_str(&std::fs::read_to_string(file).unwrap_or_else(|e| {
         simcore::harness_error(&format!("cannot read replay file: {e}"))
     }))
